@@ -19,6 +19,6 @@ YOUR TASK: produce ONE realistic change (a bug a maintainer could plausibly intr
   3. the breakage is SUBTLE: it must need something specific to manifest — a particular thread interleaving or timing, a particular element/batch/marker arrival order, a multi-step sequence, an unusual input (sizes, replica counts, empty side, many batches, more than channel capacity ...), a particular batch mode or host layout, or two cooperating code sites that each look fine alone. It must NOT be something that any ordinary small job exposes at once (that is why the existing tests must still pass). Do not touch tests, Cargo.toml, or anything guarded by `cfg(renoir_verif)` (those are instrumentation hooks; leave them alone and do not rely on them).
   4. you provide a DEMONSTRATION: a new integration test file `{wt}/tests/seeded_demo.rs` (or, if timing control is needed, a small program under `{wt}/examples/`) that uses only the public API of the crate, that FAILS (assertion failure, wrong result, hang detected by a timeout you implement, or panic) with your change applied and PASSES on the unchanged code. If the failure is probabilistic (depends on the schedule), make the demonstration loop/retry or use sleeps inside user closures so that it fails reliably (say >= 9 times out of 10) with the change and never without it. Use `RuntimeConfig::local(n)` (in-process threads) unless you need several hosts; look at {wt}/tests/utils.rs to see how the existing tests build multi-host configurations.
 
-Verify all of this yourself: run the demonstration on the changed code (must fail) and on the unchanged code (`git stash` the src change, must pass), and run the stable tests with the change.
+Verify all of this yourself: run the demonstration on the changed code (must fail) and on the unchanged code (save your change with `git diff -- src > patch.diff`, revert it with `git apply -R patch.diff`, run, then re-apply with `git apply patch.diff`; do NOT use `git stash`: the stash is shared by all worktrees of this repository and other agents work in sibling worktrees), and run the stable tests with the change.
 
 When done, leave in {wt}: the source change applied in the working tree (uncommitted), the demonstration file, and write {wt}/SEEDED.md describing: which file/lines you changed and why it breaks the property, exactly what is needed for it to manifest, the commands you ran and their outcome (demo with/without change, test-suite with change). Also save the source-only change as {wt}/patch.diff (`git diff -- src > patch.diff`). Finally reply with a short summary (the changed site, what it needs to manifest, and how the demo shows it). Leave {wt}/target in place; it will be cleaned up for you.""")
